@@ -538,6 +538,10 @@ def spawn_layer_in_subprocess(result, script_parts, options, features,
             args.extend(['--default', d])
 
         args.extend(options.original_testrunner_args[1:])
+        if options.shuffle and options.shuffle_seed is not None:
+            # make the child use the seed of this process even when it was
+            # not given on the command line but derived from the clock
+            args.extend(['--shuffle-seed', str(options.shuffle_seed)])
 
         debugargs = args  # save them before messing up for windows
         if sys.platform.startswith('win'):
